@@ -354,6 +354,10 @@ AdvOf(c) == IF c.kind # "phadv" THEN NoAdv
                   lines |-> IF c.src = "property" THEN AdvFile(c.x).lines ELSE <<>>,
                   envs |-> IF c.src = "env" THEN EnvSets ELSE <<>>, req |-> AdvReq(c.src, c.x)]
 
+\* the values an unknown key is given: t = how the driver renders it, v = its text
+UnknownValueKinds == {"int", "str", "bool", "null", "emptystr", "emptymap", "emptylist", "nestedmap"}
+UnknownValue(vk) == CASE vk = "int" -> "1" [] vk = "str" -> "some text" [] vk = "bool" -> "true" [] OTHER -> ""
+
 NoCase == [v |-> "", base |-> "", kind |-> "none", p |-> <<>>, i |-> 0, src |-> "", set |-> TRUE, x |-> 0]
 MkCase(V, b, kind, p, i, src, set) == [v |-> V.name, base |-> b, kind |-> kind, p |-> p, i |-> i, src |-> src, set |-> set, x |-> 0]
 \* the string leaf the adversarial placeholders are put into
@@ -362,8 +366,12 @@ AdvLeaf(V) == CHOOSE j \in 1..Len(V.leaves) : V.leaves[j].p = <<"pools", "#1", "
 CasesOf(V) ==
     LET n == Len(V.leaves) IN
     {MkCase(V, b, "none", <<>>, 0, "", TRUE) : b \in Bases}
-    \cup {MkCase(V, "full", "unknown", q, 0, "", TRUE) : q \in Points(V)}
-    \cup {MkCase(V, "min", "unknown", q, 0, "", TRUE) : q \in {q \in Points(V) : Len(q) <= 3}}
+    \* strictness is about the KEY: whatever value the unknown key carries (src = the kind of value)
+    \cup {MkCase(V, "full", "unknown", q, 0, vk, TRUE) : <<q, vk>> \in Points(V) \X UnknownValueKinds}
+    \cup {MkCase(V, "min", "unknown", q, 0, vk, TRUE) : <<q, vk>> \in {q \in Points(V) : Len(q) <= 3} \X {"int", "null"}}
+    \* a KNOWN key written without a value (`key:` / `key: null` / `key: ~`) is a key that is not set
+    \cup {MkCase(V, "full", "nullval", V.leaves[j].p, j, "", TRUE) : j \in {i \in 1..n : V.leaves[i].fl # "fix"}}
+    \cup {MkCase(V, "full", "nullcomp", <<"pools", pi, comp>>, 0, "", TRUE) : <<pi, comp>> \in {"#1", "#2"} \X PoolComponents}
     \cup {MkCase(V, "full", "wrongtype", V.leaves[j].p, j, "", TRUE) : j \in 1..n}
     \cup {MkCase(V, "full", "range", V.bads[j].p, j, "", TRUE) : j \in 1..Len(V.bads)}
     \cup {[MkCase(V, "full", "phadv", V.leaves[AdvLeaf(V)].p, AdvLeaf(V), src, TRUE) EXCEPT !.x = x] :
@@ -388,7 +396,8 @@ PhName == "VERIF_PH"
 Delta(c) ==
     LET V == Variants[VarByName(c.v)]
         lf == V.leaves[c.i]
-    IN CASE c.kind = "unknown"   -> [set |-> <<[p |-> c.p \o <<"zzz_unknown_key">>, t |-> "int", v |-> "1"]>>, del |-> <<>>]
+    IN CASE c.kind = "unknown"   -> [set |-> <<[p |-> c.p \o <<"zzz_unknown_key">>, t |-> c.src, v |-> UnknownValue(c.src)]>>, del |-> <<>>]
+         [] c.kind \in {"nullval", "nullcomp"} -> [set |-> <<[p |-> c.p, t |-> "null", v |-> ""]>>, del |-> <<c.p>>]
          [] c.kind = "wrongtype" -> [set |-> <<[p |-> c.p, t |-> WrongT(lf.k), v |-> WrongV(lf.k)]>>, del |-> <<>>]
          [] c.kind = "range"     -> [set |-> <<[p |-> c.p, t |-> RT(V.bads[c.i].k), v |-> V.bads[c.i].r]>>, del |-> <<>>]
          [] c.kind = "ph"        -> [set |-> <<[p |-> c.p, t |-> "str", v |-> IF c.src = "env" THEN "${env:VERIF_PH}" ELSE "${property:@PROPS@#VERIF_PH}"]>>,
@@ -431,7 +440,8 @@ UnusedCheck(c) == IF c.kind \in {"unknown", "misspell"} /\ ErrorUnused THEN "err
 RequiredMissing(c) ==
     LET V == Variants[VarByName(c.v)] IN
     \/ c.kind = "dropcomp"
-    \/ c.kind = "absent" /\ V.leaves[c.i].fl = "req"
+    \/ c.kind \in {"absent", "nullval"} /\ V.leaves[c.i].fl = "req"
+    \/ c.kind = "nullcomp"
 Validation(c) == IF ValidateTags /\ ((c.kind = "range" /\ ~Variants[VarByName(c.v)].bads[c.i].ok) \/ RequiredMissing(c)) THEN "error" ELSE "ok"
 
 Stages == <<"subst", "types", "unused", "validate">>
@@ -441,7 +451,7 @@ Outcome(c) == IF \E i \in 1..Len(Stages) : StageOut(c, Stages[i]) = "error" THEN
 
 ValueOf(c, via, V, j) ==
     LET lf == V.leaves[j] IN
-    IF c.kind = "absent" /\ IsPrefix(c.p, lf.p) THEN DocDefault(lf, via)
+    IF c.kind \in {"absent", "nullval"} /\ IsPrefix(c.p, lf.p) THEN DocDefault(lf, via)
     ELSE IF c.kind = "ph" /\ c.i = j THEN lf.f
     ELSE IF c.kind = "phadv" /\ c.i = j THEN AdvLookup(c.src, c.x).v
     ELSE IF c.kind = "range" /\ c.p = lf.p THEN V.bads[c.i].v
@@ -477,7 +487,7 @@ Strict == Done /\ cs.kind \in {"unknown", "misspell"} => err
 Typed == Done /\ cs.kind = "wrongtype" => err
 \* a value violating a documented constraint is an error; so is leaving out something required
 Constrained == Done /\ (\/ (cs.kind = "range" /\ ~TheV.bads[cs.i].ok) \/ cs.kind = "dropcomp"
-                         \/ (cs.kind = "absent" /\ TheV.leaves[cs.i].fl = "req")) => err
+                         \/ cs.kind = "nullcomp" \/ (cs.kind \in {"absent", "nullval"} /\ TheV.leaves[cs.i].fl = "req")) => err
 \* a placeholder naming an unset variable / missing property is an error; a set one is not
 Placeholders == /\ (Done /\ cs.kind \in {"ph", "emb", "emblist"} => (err <=> ~cs.set))
                 /\ (Done /\ cs.kind = "phnokey" => err)      \* a malformed property placeholder is an error (not a crash)
@@ -488,14 +498,14 @@ Placeholders == /\ (Done /\ cs.kind \in {"ph", "emb", "emblist"} => (err <=> ~cs
                 /\ (Done /\ cs.kind = "phadv" /\ cs.src = "env" =>
                         (err <=> ~\E i \in 1..Len(EnvSets) : EnvSets[i].n = AdvReq("env", cs.x)))
 \* nothing else fails
-NoSpuriousError == Done /\ (\/ cs.kind = "none" \/ (cs.kind = "absent" /\ TheV.leaves[cs.i].fl = "opt")
+NoSpuriousError == Done /\ (\/ cs.kind = "none" \/ (cs.kind \in {"absent", "nullval"} /\ TheV.leaves[cs.i].fl = "opt")
                              \/ (cs.kind = "range" /\ TheV.bads[cs.i].ok)) => ~err        \* boundary values inside the constraint
 \* options that are not given keep the documented default (discard_overflow: on, through the CLI reader); given ones are kept
 DefaultsKept == Done /\ ~err =>
     \A j \in 1..Len(TheV.leaves) :
         LET lf == TheV.leaves[j]
             given == /\ (Given(TheV, cs.base, j) \/ (cs.kind \in {"ph", "emb", "emblist"} /\ cs.i = j))
-                     /\ ~(cs.kind = "absent" /\ IsPrefix(cs.p, lf.p))
+                     /\ ~(cs.kind \in {"absent", "nullval"} /\ IsPrefix(cs.p, lf.p))
                      /\ (cs.base = "full" \/ ~\E q \in TheV.mwmin : IsPrefix(q, lf.p))
             v == ValueOf(cs, via, TheV, j)
         IN IF cs.kind = "phadv" /\ cs.i = j THEN TRUE                               \* see Placeholders
